@@ -458,6 +458,17 @@ class FnEmitter:
         if nm == 'kMaxSize':
             return {'uint8_t': '((uint8_t)255)', 'uint16_t': '((uint16_t)65535)', 'uint32_t': '((uint32_t)4294967295U)',
                     'uint64_t': '((uint64_t)18446744073709551615UL)', 'int8_t': '((int8_t)127)'}[ct]
+        if nm == 'value' and self.f.node.get('name') == 'canSwapDynStorage':
+            # std::is_same<OAlloc, Alloc>::value: the two allocator types are the class's second template argument and the
+            # non-builtin template argument of the member template; compared on canonical type strings
+            rec = self.L.record_of(self.f.node)
+            cargs = [self.L._targ_str(c) for c in rec.get('inner', []) if c.get('kind') == 'TemplateArgument']
+            fargs = [self.L._targ_str(c) for c in self.f.node.get('inner', []) if c.get('kind') == 'TemplateArgument']
+            mine = self.tm.canon(cargs[1]) if len(cargs) >= 2 else None
+            others = [self.tm.canon(x) for x in fargs if self.tm.canon(x) not in BUILTIN]
+            if mine is None or len(others) != 1:
+                raise Unsupported('is_same<OAlloc, Alloc>::value: cannot identify the allocator arguments')
+            return '((_Bool)%d)' % (1 if others[0] == mine else 0)
         key = 'static:' + nm + ':' + self.tm.canon_of(e['type'])
         v = self.L.facts.get('static', {}).get(nm)
         if v is not None:
@@ -504,7 +515,8 @@ class FnEmitter:
             return '(%s)' % self.rv(ch[0])
         if k in ('ConstantExpr',):
             if 'value' in e:
-                return '((%s)%s)' % (self.ctype(e), e['value'])
+                v = {'true': '1', 'false': '0'}.get(str(e['value']), e['value'])
+                return '((%s)%s)' % (self.ctype(e), v)
             return self.rv(ch[0])
         if k == 'SubstNonTypeTemplateParmExpr':
             return self.val(ch[-1])
